@@ -1,12 +1,13 @@
 """C11 — forest extraction returns a minimal, closed, productive rule set."""
+from harness.props import c11_find as FR
 from harness.props.c03 import naive_lfp
 
 ID = "C11"
 TITLE = "forest extraction: subset, productive, minimal, one rule per class, closed, reverse rules last"
 COQ_PROPS = "Props/C11.v"
-COQ_RUN = ("Forest.ExtractorRun", "run_c11")
+COQ_RUN = ("Forest.FindRuleRun", "run_c11_all")   # = run_c11 on (root, keys) inputs (C11_harness_dispatch)
 GEN_TARGETS = ["minimize_order"]   # Forest/GenBridgeExtractor.v
-N = {"quick": 5000, "thorough": 100000}
+N = {"quick": 10000, "thorough": 100000}
 RULE = (
     "integer universes: 2-25 forest keys over 1-9 labels, shifts in [-2,3], arity 0-3, random bucket "
     "(REVERSE/NORMAL/EQUIV/VERIFICATION) per key, biased so that the root pumps (verification leaves, "
@@ -14,13 +15,34 @@ RULE = (
     "TableMethod fed with the keys (stub rule database) and its needed_rules list is compared, as a list, "
     "with the model; the oracle re-decides subset/productive/minimal/closed/one-rule-per-class/reverse-last "
     "with a naive Kleene iteration. Non-trivial: root pumps, at least 2 needed rules and at least one "
-    "candidate rule discarded; distinct = distinct (root, key list)."
+    "candidate rule discarded; distinct = distinct (root, key list). "
+    "Every fifth case is a REAL SEARCH (harness/props/c11_find.py): a table universe of the C04 generator (2-10 integer "
+    "classes, plain / verification / symmetry strategies and factories with eager, lazy and foreign-parent ready rules, "
+    "three emptiness regimes), sometimes with a 'twin' entry (another strategy of the pack decomposing the same class "
+    "into the same children with other shifts), searched by the real CombinatorialSpecificationSearcher with "
+    "RuleDBForest(reverse=True/False), classes stored compressed or not, until the database reports a specification; "
+    "then the real ForestRuleExtractor is built, every needed key goes through the real _find_rule and rules(cache) is "
+    "consumed with a cache of 0-3 rule objects (rules _find_rule returned, and arbitrary rules of the table, normal and "
+    "reverse). Compared with the model, per needed key: found / RuntimeError and the forest key of the returned rule "
+    "(rule.forest_key(classdb.get_label, classdb.is_empty)); the forest keys of the rules rules() yields, in order, and "
+    "which of them as equivalence rules; the key at which it gives up. WHICH rule object comes back (strategy, parent "
+    "class, kind, reverse index) and the class database afterwards (labels allocated, emptiness cache filled) are "
+    "compared too but only reported (extra check 'strict agreement'): a refactoring that enumerates the candidates in "
+    "another order changes them without touching the property. The oracle recomputes the forest key of every returned "
+    "rule from the table and holds it against the requested key. Non-trivial search case: a specification with at "
+    "least 2 needed keys. Extra checks: the same comparison on the shipped word universes (example.py pack) and on the "
+    "word universe of the open finding, tabulated as strategy tables from the real objects."
 )
 TRUSTED = [
     "modelled, not verified: rule_db/forest.py ForestRuleExtractor._sorted_stable_rules/_minimize/_minimize_key/"
     "_is_productive/check — Forest/Extractor.v tied by this correspondence (needed_rules compared as a list)",
-    "_find_rule/rules() (re-creating concrete rules from keys) involve user strategies: exercised by real "
-    "RuleDBForest searches in extra_checks, not modelled",
+    "modelled, not verified: ForestRuleExtractor._find_rule/_rules_for_class/rules() - Forest/FindRule.v over the "
+    "strategy table and class database of the C04 searcher model, tied by the search cases of this correspondence "
+    "(returned rule objects, yielded rules, class database compared exactly); user strategies are table strategies "
+    "(harness/universes/table.py); the cache handed to rules() holds Rule/ReverseRule/VerificationRule objects only "
+    "(EquivalenceRule/EquivalencePathRule cache entries are not modelled)",
+    "the needed keys, the class database at extraction time and the pack order given to the model are read off the "
+    "real objects (encode_with)",
 ]
 ASSUMPTIONS = [
     "termination/totality are proved for the MODEL (C11_never_out_of_fuel, C11_total); the real extractor is tied to it by the "
@@ -28,6 +50,10 @@ ASSUMPTIONS = [
     "C11_harness_never_out_of_fuel)",
     "closedness and one-rule-per-class of the minimal set are NOT proved (energy-game determinacy); they are "
     "decided per instance by the oracle, and a failing self-check (AssertionError) is reported as a violation",
+    "search cases: strategies are pure functions of the class (the table); the pack order given to the model is "
+    "list(StrategyPack) of the real pack; a _find_rule failure is excused only when the table broke the strategy "
+    "contracts on a label of the key (the emptiness cache of that label was written with a wrong or with two different "
+    "values during the search); the failure 'key only re-created from a class outside the key' is the listed open finding",
 ]
 
 BUCKETS = None
@@ -43,6 +69,14 @@ def _buckets():
 
 
 def gen(rng, tier):
+    keys = _gen_keys(rng, tier)
+    while True:
+        for _ in range(4):
+            yield next(keys)
+        yield FR.gen_case(rng)
+
+
+def _gen_keys(rng, tier):
     while True:
         nlab = rng.randint(1, 9)
         labels = list(range(nlab))
@@ -70,6 +104,18 @@ def encode(case):
     return [case["root"], case["keys"]]
 
 
+def canon_model(mo):
+    """search cases: the model answers with rule identities and class databases as well; compared are, per
+    key, found / not found and the forest key of the returned rule, the keys rules() hands out, where it stops"""
+    return FR.canon_model(mo)
+
+
+def encode_with(case, res):
+    if case.get("kind") == "search":
+        return FR.encode_with(case, res)
+    return encode(case)
+
+
 def _mk(keys):
     from comb_spec_searcher.typing import ForestRuleKey
 
@@ -88,6 +134,8 @@ class _StubDB:
 
 
 def impl(case):
+    if case.get("kind") == "search":
+        return FR.impl(case)
     from comb_spec_searcher.rule_db.forest import ForestRuleExtractor, TableMethod
 
     tm = TableMethod()
@@ -114,6 +162,8 @@ def _pumps(keys, root):
 
 
 def oracle(case, res):
+    if case.get("kind") == "search":
+        return FR.oracle(case, res)
     if "exception" in res:
         return "implementation raised " + res["exception"]
     keys, root = case["keys"], case["root"]
@@ -147,15 +197,27 @@ def oracle(case, res):
     return None
 
 
+def finding_match(case, why):
+    return FR.finding_match(case, why)
+
+
 def nontrivial(case, res):
+    if case.get("kind") == "search":
+        return FR.nontrivial(case, res)
     return bool(res.get("needed")) and len(res["needed"]) >= 2 and len(res["needed"]) < len(case["keys"])
 
 
 def key(case):
+    if case.get("kind") == "search":
+        import json
+
+        return json.dumps([case["u"], case["rev"], case["comp"], case["cache"]], sort_keys=True)
     return str((case["root"], case["keys"]))
 
 
 def classify(case, res):
+    if case.get("kind") == "search":
+        return FR.classify(case, res)
     tags = []
     if res.get("needed") is None:
         tags.append("root_not_pumping")
@@ -167,6 +229,9 @@ def classify(case, res):
 
 
 def shrink(case):
+    if case.get("kind") == "search":
+        yield from FR.shrink(case)
+        return
     ks = case["keys"]
     for i in range(len(ks)):
         yield {"root": case["root"], "keys": ks[:i] + ks[i + 1:]}
@@ -187,6 +252,7 @@ def extra_checks(ctx):
     if ctx.tier == "thorough":
         pats_list += [["ababa", "babb"], ["aab"], ["abab"], ["aaa", "bbb"], ["ab", "ba"]]
     n = 0
+    n_tab = 0
     for pats in pats_list:
         for reverse in (True, False):
             css = CombinatorialSpecificationSearcher(
@@ -199,6 +265,11 @@ def extra_checks(ctx):
                 continue
             ex = ForestRuleExtractor(css.start_label, css.ruledb, css.classdb, css.strategy_pack)
             ex.check()
+            # the same search seen as a strategy table: the model of _find_rule / rules() must agree
+            ex2 = ForestRuleExtractor(css.start_label, css.ruledb, css.classdb, css.strategy_pack)
+            cmp_res = FR.compare_real_search(css, ex2, "%r reverse=%s" % (pats, reverse))
+            res.extend(cmp_res)
+            n_tab += 0 if cmp_res else 1
             keys = list(ex.needed_rules)
             for rk in keys:
                 rule = ex._find_rule(rk)
@@ -211,9 +282,50 @@ def extra_checks(ctx):
             true = [sum(1 for w in product("ab", repeat=i) if not any(p in "".join(w) for p in pats)) for i in range(8)]
             if cnt != true:
                 res.append(("forest spec counts %r" % (pats,), False, "failing input: %r vs %r" % (cnt, true)))
+    # the word universe of the open finding (a factory yielding a rule with a foreign parent): implementation
+    # and model must fail on the same key
+    import importlib.util
+    import os
+
+    fpath = os.path.join(os.path.dirname(os.path.dirname(os.path.dirname(os.path.abspath(__file__)))),
+                         "findings", "c11_find_rule_foreign_parent.py")
+    if os.path.exists(fpath):
+        sp = importlib.util.spec_from_file_location("c11_foreign_parent", fpath)
+        ff = importlib.util.module_from_spec(sp)
+        sp.loader.exec_module(ff)
+        for reverse in (True, False):
+            css = CombinatorialSpecificationSearcher(
+                AvoidingWithPrefix("", ["aa", "bb"], ["a", "b"]), ff.pack(), ruledb=RuleDBForest(reverse=reverse)
+            )
+            from comb_spec_searcher.exception import NoMoreClassesToExpandError
+
+            try:
+                for _ in range(50):
+                    if css.ruledb.has_specification():
+                        break
+                    css.do_level()
+            except NoMoreClassesToExpandError:
+                pass
+            if not css.ruledb.has_specification():
+                continue
+            ex2 = ForestRuleExtractor(css.start_label, css.ruledb, css.classdb, css.strategy_pack)
+            nf = 0
+            for rk in list(ex2.needed_rules):
+                try:
+                    ex2._find_rule(rk)  # pylint: disable=protected-access
+                except RuntimeError:
+                    nf += 1
+            ex3 = ForestRuleExtractor(css.start_label, css.ruledb, css.classdb, css.strategy_pack)
+            cmp_res = FR.compare_real_search(css, ex3, "foreign-parent word pack reverse=%s" % reverse)
+            res.extend(cmp_res)
+            res.append(("foreign-parent word universe (open finding), reverse=%s: %d key(s) not re-created, model agrees: %s"
+                        % (reverse, nf, not cmp_res), True, "%d not found" % nf))
     res.append(("every extracted key of %d real forest searches is re-created by _find_rule" % n, True, "%d keys" % n))
+    res.append(("model of _find_rule / rules() agrees with the implementation on %d shipped word universes "
+                "(tabulated as strategy tables)" % n_tab, True, "%d searches" % n_tab))
     from harness import gen_selftest
 
+    res.append(FR.strict_agreement(ctx.cases, ctx.impl_res))
     return res + [gen_selftest.rejects(_BAD_SNIPPETS)] + gen_selftest.checks(GEN_TARGETS, ctx.seed, ID)
 
 
@@ -243,7 +355,23 @@ LEVEL_TEXT = (
     "(C11_never_out_of_fuel), its fuel argument is irrelevant (C11_fuel_irrelevant), and whenever the start class pumps it "
     "returns a rule set - neither OutOfFuel nor 'Not pumping after adding all rules' (C11_total); C11_total_correct states "
     "subset/productive/minimal/closed with no fuel and no 'the run returned' hypothesis (C11_closed_total discharges the "
-    "run that check() performs). The model is tied to forest.py by comparing needed_rules as a list."
+    "run that check() performs). The model is tied to forest.py by comparing needed_rules as a list. "
+    "C11_reverse_last_total restates the reverse-rules-last theorem with the table method run by run_total (fuel bound "
+    "of C03), so its hypothesis is satisfiable for every fuel argument. "
+    "KEY -> RULE: Forest/FindRule.v models _rules_for_class, _find_rule and rules() over the strategy table and the "
+    "class database of the C04 searcher model, a key being the EvKey event the model of RuleDBForest.add emits "
+    "(C11_add_keys_is_forest_add). Proved (Forest/FindRuleProofs.v): whatever _find_rule returns was re-created by the "
+    "pack from a class of the key and its forest key - parent, children, shifts and bucket -, evaluated again in the "
+    "state _find_rule leaves, IS the requested key (C11_find_rule_sound); a key inserted for a rule r is turned back "
+    "into a rule with the same key in every later state in which classdb.is_empty still answers the same, whenever the "
+    "pack re-creates r from the parent or a child of the key (C11_find_rule_total) - always when it re-creates it from "
+    "r's own parent, i.e. for every rule of a plain/verification/symmetry strategy, every strategy a factory yields as "
+    "such and every ready rule a factory yields for the class it is applied to (C11_find_rule_total_own_parent, "
+    "C11_rule_parent_plain, C11_rule_parent_item); RuntimeError('Can't find a rule') means exactly that no candidate "
+    "re-created from a replayed class has the key (C11_find_rule_not_found); _find_rule raises nothing else "
+    "(C11_find_rule_no_exception); rules(cache) answers every key it gets past with a rule that has that key, in order "
+    "(C11_rules_served); with the repair proposed for the open finding the failing case disappears "
+    "(C11_find_rule_total_with_repair)."
 )
 LEVEL_NOTE = (
     "C11_one_rule_per_class, C11_minimal_one_rule_per_class and C11_positional are closed under the global context "
@@ -253,8 +381,17 @@ LEVEL_NOTE = (
     "C11_one_rule_per_class_runs, which take that comparison as a hypothesis, and - using C03 termination - the _total "
     "versions of the same statements. C11_closed takes the table-method run of check() as a hypothesis; C11_closed_total "
     "does not. C11_one_rule_per_class_partial (soundness of the code's own "
-    "check()) is kept. Closedness and one-rule-per-class are also decided per instance by the oracle. _find_rule is "
-    "exercised on real searches only. Termination is a theorem about the model (C03 layer A table method inside the "
+    "check()) is kept. Closedness and one-rule-per-class are also decided per instance by the oracle. The _find_rule "
+    "theorems are about the model (Forest/FindRule.v); they assume a usable state (well-formed class database, no "
+    "exception so far), labels of the key in use, and - for totality - the hypothesis `grows` (same is_empty answers at "
+    "insertion and extraction: C11_view_grows_under_contracts gives it from truthful caches, i.e. under the strategy "
+    "contracts of C04; C11_find_rule_needs_same_emptiness shows it is needed). The one failing case that honest "
+    "strategies can reach - a factory's ready rule with a foreign parent produced only from classes outside the key - "
+    "is the OPEN finding find-rule-foreign-parent-outside-key (reachable with a realistic word pack: "
+    "findings/c11_find_rule_foreign_parent.py). The model follows the code as it is; it also carries the proposed "
+    "repair (search_labels scan=true) and the harness selects it by probing the real _find_rule on the smallest "
+    "foreign-parent universe, so the check stays quiet with findings/c11_find_rule_scan_all_classes.diff applied. "
+    "Termination is a theorem about the model (C03 layer A table method inside the "
     "extractor model); the real code's termination follows only through the correspondence."
 )
 
